@@ -29,6 +29,8 @@ def run_unit(spec, tier):
         r = units.run_verus(spec['unit'])
     elif kind == 'bx':
         r = units.run_bx(spec['name'], spec['strategy'], spec.get('bounds') or BX_BOUNDS[tier], tier)
+    elif kind == 'bxr':
+        r = units.run_bx_resolver(spec['name'])
     elif kind == 'bxv':
         r = units.run_bx_vec(spec['name'], 14 if tier == 'thorough' else 10)
     elif kind == 'gkn':
@@ -70,8 +72,19 @@ _BX_CLAUSES = {
 }
 
 
+# The generated-code properties quantify over "all definitions as in C01": their contracts take the layout
+# invariant (disjoint, aligned, inside the capacity) as a precondition.  A unit listed for them with
+# `dep: True` is a unit that establishes this precondition; its failures count for the dependent property
+# when they count for one of the properties it depends on.
+DEPENDS_ON = {'C04': ['C01', 'C02'], 'C05': ['C01', 'C02'], 'C06': ['C01', 'C02'], 'C07': ['C01', 'C02']}
+
+
 def relevant(pid, spec, r, f):
     """is failure f of unit r a failure of property pid?"""
+    if spec.get('dep'):
+        base = dict(spec)
+        base.pop('dep')
+        return any(relevant(q, base, r, f) for q in DEPENDS_ON.get(pid, []))
     if f.get('props') is not None:
         return pid in f['props']
     if r.engine.startswith('bx'):
@@ -131,6 +144,16 @@ def make_replay(pid, spec, r, f, tier):
     os.makedirs(d, exist_ok=True)
     stamp = time.strftime('%Y%m%d-%H%M%S')
     base = os.path.join(d, '%s-%s-%s-%d' % (pid, r.name, stamp, len(os.listdir(d))))
+    if f.get('resolver_case') is not None:
+        path = base + '.json'
+        json.dump({'kind': 'bx-resolver', 'property': pid, 'clauses': f['clauses'], 'unit': r.name,
+                   'how': './check --replay <this file>: re-runs the entry points under the synthetic resolver against /repo through the public API'}, open(path, 'w'), indent=1)
+        return path, True
+    if f.get('gk_compile') is not None:
+        path = base + '.json'
+        json.dump({'kind': 'gk-compile', 'property': pid, 'case': f['gk_compile'], 'clauses': f['clauses'], 'unit': r.name,
+                   'how': './check --replay <this file>: regenerates the corpus modules with /repo\'s generator and compiles them'}, open(path, 'w'), indent=1)
+        return path, True
     if f.get('vec_case') is not None:
         path = base + '.json'
         json.dump({'kind': 'bx-vec', 'property': pid, 'case': f['vec_case'], 'clauses': f['clauses'], 'unit': r.name,
@@ -337,7 +360,7 @@ K_C18 = {'kind': 'kani', 'crate': 'builder', 'name': 'kani-add-dynamic-datum', '
          'assumptions': ['alloc::fmt::format is stubbed by an empty string (error text is not part of the property; formatting dominates CBMC cost)']}
 PROPERTIES['C18'] = {
     'level': 'proof',
-    'units': lambda tier: [V_NATIVE, K_C18],
+    'units': lambda tier: [V_NATIVE, K_C18, {'kind': 'bxr', 'name': 'resolver-standin'}],
     'explanation': 'For add_datum, add_datum_allow_uninit, add_datum_override and copy_datum (extracted from /repo) Verus proves that the details '
                    'handed to the inner builder are exactly the abstract resolver\'s answer (overrides applied field-wise; offset = usize::MAX): a body '
                    'consulting the host\'s size_of/align_of fails the postcondition. The strategies read only recorded size/align (unit layout).',
@@ -375,6 +398,22 @@ PROPERTIES['C07'] = {
     'explanation': 'In-capacity / typed / not-moved-out: CBMC pointer checks on every corpus harness. Alignment: contract of read/write/get/get_mut checked with the record placed at a symbolic slot of an aligned arena and ptr::read/write replaced by alignment-asserting wrappers; probes on a bare (align 1) buffer decide which primitives require an aligned receiver; every call site of the emitted modules is classified by receiver (bare local vs field of the repr(align) record).',
     'unchecked': ['stack placement of locals is not observable in CBMC (every object is aligned): the bare-buffer clause is decided by probe + call-site classification, which is type-directed'],
 }
+
+
+def layout_deps(tier):
+    """the units that establish the layout precondition of the generated-code properties (see DEPENDS_ON)"""
+    return [dict(u, dep=True) for u in [V_LAYOUT] + bx_units(tier) + [k_simple(tier), K_DEF]]
+
+
+DEP_NOTE = (' The contracts of the generated code take the layout invariant of the definition (fields disjoint, aligned, inside the published capacity) as a precondition; '
+            'the units that establish it (layout, simple stand-in, kani-simple-leaves, kani-definition: see C01/C02) are run here too and a failed layout obligation is reported for this property as well.')
+for _p in ('C04', 'C05', 'C06', 'C07'):
+    PROPERTIES[_p]['explanation'] += DEP_NOTE
+PROPERTIES['C04']['units'] = lambda tier: [GK] + layout_deps(tier)
+PROPERTIES['C05']['units'] = lambda tier: [GK] + layout_deps(tier)
+PROPERTIES['C06']['units'] = lambda tier: [GK] + layout_deps(tier)
+PROPERTIES['C07']['units'] = lambda tier: [GK, K_DATA, CALLSITES] + layout_deps(tier)
+
 PROPERTIES['C17'] = {
     'level': 'model_checking', 'units': lambda tier: [{'kind': 'bxt', 'name': 'types-standin'}],
     'explanation': 'The type-name pipeline (std::any::type_name -> syn::parse_str -> path rewriting visitor -> quote -> to_string) and the table lookup keyed by its output '
@@ -448,11 +487,13 @@ def k_simple(tier):
 
 PROPERTIES['C13'] = {
     'level': 'model_checking',
-    'units': lambda tier: [V_NATIVE, K_DEF, V_LAYOUT] + bx_units(tier),
+    'units': lambda tier: [V_NATIVE, K_DEF, V_LAYOUT] + bx_units(tier) + [GK],
     'explanation': 'Display: fmt_variant_representation (extracted, write! statements dropped) is proved panic-free by Verus for every variant list in address order, '
                    'which the strategy contracts establish (Verus for append/basic, bounded for simple). max_size / max_type_align: Kani, no panic on any '
                    'state the builder can leave (incl. data added and removed before close).',
-    'unchecked': ['generate() itself (string emission through codegen/format!) and "the generated module compiles with any fragment selection": outside both verifiers; the corpus modules of gk compile, which is observed, not decided'],
+    'unchecked': ['generate() itself (string emission through codegen/format!) and "the generated module compiles with any fragment selection" are outside both verifiers. Bounded observation only: every corpus module '
+                  '(fragment selections none / clone / serde / clone+serde) is emitted by /repo\'s generator on this run and compiled; a compile error located in an emitted module is reported as a C13 violation '
+                  'with the definition that triggers it'],
 }
 
 PROPERTIES['C01']['units'] = lambda tier: [V_LAYOUT] + bx_units(tier) + [k_simple(tier), K_DEF, V_BUILDER]
